@@ -8,7 +8,7 @@ op); exhaustive over small key universes with forced collisions, random to lengt
 import vcommon as V
 
 META = dict(
-    text="Lean 4 theorems (Props/C14.lean) prove, for every operation history of any length over any key type, any hash-code function that respects key equality (collisions arbitrary) and any key equality that is an equivalence, that the model of HashSet/HashDelete/HashGet/HashGetDefault/HashPairi/HashCountKeys/keys/range/SexpString/json keeps its three pieces of bookkeeping consistent (invariant Inv: KeyOrder = the live keys once each, NumKeys = total bucket size, buckets hold pairwise different keys of their code) and that every observation equals that of an association list in first-insertion order; deleting or looking up a missing key changes nothing; for the defining loop `for k, v := range h` (one mdef per iteration, Model/RangeBind, fix C14-03) that it presents exactly the pairs of range when the keys have one type and otherwise stops with an error, never with a wrong list (defining_range_partial, defining_range_never_wrong; the full statement fails for keys of different types: known finding). Unit tests reach one delete; the theorem covers all interleavings.",
+    text="Lean 4 theorems (Props/C14.lean) prove, for every operation history of any length over any key type, any hash-code function that respects key equality (collisions arbitrary) and any key equality that is an equivalence, that the model of HashSet/HashDelete/HashGet/HashGetDefault/HashPairi/HashCountKeys/keys/range/SexpString/json keeps its three pieces of bookkeeping consistent (invariant Inv: KeyOrder = the live keys once each, NumKeys = total bucket size, buckets hold pairwise different keys of their code) and that every observation equals that of an association list in first-insertion order; deleting or looking up a missing key changes nothing; read off the model directly: a key that no hset/hdel of the history writes (in any spelling) keeps its binding through every history (get_stable), the latest write wins and a deleted key stays gone (latest_write_wins, deleted_stays_gone), overwriting keeps the key's place, a new key goes last, delete-then-set moves it last, and no builtin reorders the keys that stay; for the defining loop `for k, v := range h` (one mdef per iteration, Model/RangeBind, fix C14-03) that it presents exactly the pairs of range when the keys have one type and otherwise stops with an error, never with a wrong list (defining_range_partial, defining_range_never_wrong; the full statement fails for keys of different types: known finding). Unit tests reach one delete; the theorem covers all interleavings.",
     note="Trusted: Lean kernel; axioms propext/Classical.choice/Quot.sound; Model/Hash.lean is hand-written and tied to zygo/hashutils.go + functions.go + jsonmsgp.go by the `hash` correspondence (differential testing: exhaustive histories over 5/6-key universes with symbol/int and string/int code collisions, char/int and [k]/k aliases, every observer after every step, script route and direct route with bookkeeping dump; random histories to length 200). Key equality enters as hypotheses (KeyLaws: equivalence + code congruence), proved for the channel's concrete key universe (symbols, strings, ints, chars). hash/fnv and symbol numbering are exercised by the channel, not proved. Multi-element array keys, list keys, typed records and CloneFrom aliasing are outside the property.",
     technique="Lean 4 refinement proof (bucket/KeyOrder/NumKeys model refines ordered association list) + model/implementation correspondence on exhaustive small-scope histories",
     design_ref="DESIGN.md §7 C14",
